@@ -503,7 +503,11 @@ def variants(lo, hi, w, rng):
     V.append(("mixture:same-object-twice", mixture, tuple([i0] + [I(a, b) for a, b in pairs[1:]] + [i0]), {"weights": wb},
               (list(lo) + [lo[0]], list(hi) + [hi[0]], wb)))
     if ints and min(lo) >= 0:
-        V.append(("stacking:2d-uint-array", stacking, (np.array([[int(a), int(b)] for a, b in pairs], dtype=np.uint16),), {"weights": list(wl)}))
+        # the narrowest unsigned dtype that HOLDS the endpoints (a harness-side wrap-around would be our error, not the library's)
+        udt = np.uint16 if max(hi) < 2 ** 16 else np.uint64
+        if max(hi) < 2 ** 63:
+            V.append(("stacking:2d-uint-array", stacking, (np.array([[int(a), int(b)] for a, b in pairs], dtype=udt),), {"weights": list(wl)}))
+    if ints and min(lo) >= 0 and max(hi) < 2 ** 63:
         V.append(("dss:vec-Interval-uint", dss, (I(np.array([int(a) for a, _ in pairs], dtype=np.uint64), np.array([int(b) for _, b in pairs], dtype=np.uint64)), list(wl)), {}))
     # objects rebuilt from their own public read-outs, copies and pickles must convert to the same p-box
     import copy, pickle
